@@ -2035,6 +2035,12 @@ class Engine:
             if self.keccak_no_unknown_preimage:
                 # a hash output never equals a constant that this run has not produced as a hash of that length
                 return False
+        if self.keccak_no_unknown_preimage and (ka or kb):
+            o = b if ka else a
+            if z3.is_const(o) and o.decl().kind() == z3.Z3_OP_UNINTERPRETED:
+                # a fresh 32-byte input is never a Keccak image computed in this run (no accidental coincidence)
+                self.stats["heq_fresh_vs_hash"] = self.stats.get("heq_fresh_vs_hash", 0) + 1
+                return False
         return simp(a == b)
 
     keccak_no_unknown_preimage = True
